@@ -134,34 +134,40 @@ Print Assumptions raw_result_private.
 
 (* each quirk, switched on alone, breaks the property (computed witnesses) *)
 Theorem c08_key_ignores_shape_refuted :
-  exists pf ops, fst (run pf (mkQ true false false false false) empty_world ops)
-                 <> fst (run_uncached pf (mkQ true false false false false) empty_world ops).
+  exists pf ops, fst (run pf (mkQ true false false false false false) empty_world ops)
+                 <> fst (run_uncached pf (mkQ true false false false false false) empty_world ops).
 Proof. exact shape_refuted. Qed.
 Print Assumptions c08_key_ignores_shape_refuted.
 
 Theorem c08_result_aliases_cache_refuted :
-  exists pf ops, fst (run pf (mkQ false true false false false) empty_world ops)
-                 <> fst (run_uncached pf (mkQ false true false false false) empty_world ops).
+  exists pf ops, fst (run pf (mkQ false true false false false false) empty_world ops)
+                 <> fst (run_uncached pf (mkQ false true false false false false) empty_world ops).
 Proof. exact alias_refuted. Qed.
 Print Assumptions c08_result_aliases_cache_refuted.
 
 Theorem c08_arg_made_readonly_refuted :
-  exists pf ops, existsb oro (objs (snd (run pf (mkQ false false true false false) empty_world ops))) = true
-                 /\ In (Some (([], []), -1)) (fst (run pf (mkQ false false true false false) empty_world ops)).
+  exists pf ops, existsb oro (objs (snd (run pf (mkQ false false true false false false) empty_world ops))) = true
+                 /\ In (Some (([], []), -1)) (fst (run pf (mkQ false false true false false false) empty_world ops)).
 Proof. exact ro_refuted. Qed.
 Print Assumptions c08_arg_made_readonly_refuted.
 
 Theorem c08_view_write_stale_refuted :
-  exists pf ops, fst (run pf (mkQ false false false true false) empty_world ops)
-                 <> fst (run_uncached pf (mkQ false false false true false) empty_world ops).
+  exists pf ops, fst (run pf (mkQ false false false true false false) empty_world ops)
+                 <> fst (run_uncached pf (mkQ false false false true false false) empty_world ops).
 Proof. exact view_refuted. Qed.
 Print Assumptions c08_view_write_stale_refuted.
 
 Theorem c08_object_cache_handout_refuted :
-  exists pf ops, fst (run pf (mkQ false false false false true) empty_world ops)
-                 <> fst (run_uncached pf (mkQ false false false false true) empty_world ops).
+  exists pf ops, fst (run pf (mkQ false false false false true false) empty_world ops)
+                 <> fst (run_uncached pf (mkQ false false false false true false) empty_world ops).
 Proof. exact hand_refuted. Qed.
 Print Assumptions c08_object_cache_handout_refuted.
+
+Theorem c08_scalar_key_by_value_refuted :
+  exists pf ops, fst (run pf (mkQ false false false false false true) empty_world ops)
+                 <> fst (run_uncached pf (mkQ false false false false false true) empty_world ops).
+Proof. exact sval_refuted. Qed.
+Print Assumptions c08_scalar_key_by_value_refuted.
 
 Theorem c08_time_cache_ignores_fmt_refuted :
   exists tf ops, trun tf true ([], []) ops <> trun_uncached tf true ([], []) ops
